@@ -17,6 +17,8 @@ for n in names:
     if ap.returncode != 0:
         ap = subprocess.run(["git", "-C", "/repo", "apply", "--3way", os.path.join(d, "patch.diff")], capture_output=True, text=True)
     if ap.returncode != 0:
+        subprocess.run(["git", "-C", "/repo", "reset", "-q", "HEAD", "--", "."])
+        subprocess.run(["git", "-C", "/repo", "checkout", "HEAD", "--", "."])
         res[n] = {"property": meta["property"], "applies": False, "repo_head": head}
         print(n, "patch does not apply")
         continue
